@@ -3,6 +3,7 @@ package c13
 import (
 	"fmt"
 	"reflect"
+	"sync"
 
 	"verif/core"
 
@@ -375,6 +376,30 @@ func graphCount(n int) int64 {
 	return c
 }
 
+// reachableCyclic reports whether the part of the graph reachable from node 0 contains a cycle.
+func reachableCyclic(gc *GraphCase) bool {
+	state := make([]int, len(gc.Kinds))
+	var walk func(j int) bool
+	walk = func(j int) bool {
+		if j < 0 {
+			return false
+		}
+		switch state[j] {
+		case 1:
+			return true
+		case 2:
+			return false
+		}
+		state[j] = 1
+		if walk(gc.Slots[2*j]) || walk(gc.Slots[2*j+1]) {
+			return true
+		}
+		state[j] = 2
+		return false
+	}
+	return walk(0)
+}
+
 func runGraphs(r *core.Run) {
 	maxN := r.Pick(3, 4)
 	workers := make([]*graphRT, r.Workers)
@@ -383,48 +408,64 @@ func runGraphs(r *core.Run) {
 	}
 	completed := 0
 	var total int64
-	for n := 1; n <= maxN; n++ {
-		cnt := graphCount(n)
-		ok := r.Parallel(cnt, 256, func(worker int, lo, hi int64) {
-			g := workers[worker]
-			for rank := lo; rank < hi; rank++ {
-				gc := graphOfRank(n, rank)
-				if n == 4 && gc.Kinds[1]+gc.Kinds[2]+gc.Kinds[3] != 0 && gc.Kinds[1]+gc.Kinds[2]+gc.Kinds[3] != 3 {
-					continue // n=4: all-object / all-array inner nodes only (bounded for time)
-				}
-				for _, route := range graphRoutes {
-					for mapper := 0; mapper < 3; mapper++ {
-						if mapper > 0 && (route == "Export" || route == "ExportTo-generic" || route == "ExportTo-interface") {
+	var routeFailed sync.Map
+	// pass 0: graphs without a reachable cycle (pure sharing); pass 1: graphs with cycles. A route that already
+	// lost sharing on an acyclic graph is not driven into a cycle (it would recurse without bound).
+	for pass := 0; pass < 2; pass++ {
+		for n := 1; n <= maxN; n++ {
+			cnt := graphCount(n)
+			ok := r.Parallel(cnt, 256, func(worker int, lo, hi int64) {
+				g := workers[worker]
+				for rank := lo; rank < hi; rank++ {
+					gc := graphOfRank(n, rank)
+					if n == 4 && gc.Kinds[1]+gc.Kinds[2]+gc.Kinds[3] != 0 && gc.Kinds[1]+gc.Kinds[2]+gc.Kinds[3] != 3 {
+						continue // n=4: all-object / all-array inner nodes only (bounded for time)
+					}
+					if reachableCyclic(gc) != (pass == 1) {
+						continue
+					}
+					for _, route := range graphRoutes {
+						if _, bad := routeFailed.Load(route); bad && pass == 1 {
 							continue
 						}
-						if mapper == mapTag {
-							continue // GN / GI have no tags
-						}
-						gc.Route, gc.Mapper = route, mapper
-						sig, what, app := checkGraph(g, gc)
-						if !app {
-							continue
-						}
-						r.Eval(1)
-						r.Outcome("graph:" + route)
-						if sig != "" {
-							cp := *gc
-							r.Violation(sig, fmt.Sprintf("graph kinds=%v slots=%v route %s: %s", gc.Kinds, gc.Slots, route, what), cp)
+						for mapper := 0; mapper < 3; mapper++ {
+							if mapper > 0 && (route == "Export" || route == "ExportTo-generic" || route == "ExportTo-interface") {
+								continue
+							}
+							if mapper == mapTag {
+								continue // GN / GI have no tags
+							}
+							gc.Route, gc.Mapper = route, mapper
+							sig, what, app := checkGraph(g, gc)
+							if !app {
+								continue
+							}
+							r.Eval(1)
+							r.Outcome("graph:" + route)
+							if sig != "" {
+								routeFailed.Store(route, true)
+								cp := *gc
+								r.Violation(sig, fmt.Sprintf("graph kinds=%v slots=%v route %s: %s", gc.Kinds, gc.Slots, route, what), cp)
+							}
 						}
 					}
+					r.NontrivialN(1)
+					if r.WantSample(rank) && n == maxN {
+						cp := *gc
+						r.Sample(cp)
+					}
 				}
-				r.NontrivialN(1)
-				if r.WantSample(rank) && n == maxN {
-					cp := *gc
-					r.Sample(cp)
-				}
+			})
+			if !ok {
+				r.Set("graph_nodes_completed", completed)
+				r.Set("graphs", total)
+				return
 			}
-		})
-		if !ok {
-			break
+			if pass == 1 {
+				completed = n
+				total += cnt
+			}
 		}
-		completed = n
-		total += cnt
 	}
 	r.Set("graph_nodes_completed", completed)
 	r.Set("graphs", total)
